@@ -121,7 +121,7 @@ MemStep(s, r, K) ==
     [] r.op = "Get"        -> Out(RGet(r.k, s.t[r.k]), s)
     [] r.op = "GetVersion" -> Out(RVer(r.k, s.t[r.k].v), s)
     [] r.op = "GetPrefix"  -> Out(R("ok", PrefixFrom(s.t, r.p, 1)), s)
-    [] r.op = "Reopen"     -> Out(ROk, s)                 \* nothing to reopen
+    [] r.op \in {"Reopen", "Crash"} -> Out(ROk, s)        \* nothing to reopen
     [] OTHER -> Out(ROk, s)                               \* enter / prepare / commit: trait defaults
 
 (***************************************************************************)
@@ -163,7 +163,9 @@ RedbStep(s, r, K) ==
     [] r.op = "Get"        -> Out(RGet(r.k, s.t[r.k]), s)          \* reads the table
     [] r.op = "GetVersion" -> Out(RVer(r.k, s.c[r.k]), s)          \* reads the cache
     [] r.op = "GetPrefix"  -> Out(R("ok", PrefixFrom(s.t, r.p, 1)), s)
-    [] r.op = "Reopen"     -> Out(ROk, [t |-> s.t, c |-> VersOf(s.t)])   \* cache rebuilt from the table
+    \* reopen (cleanly closed, or "Crash": from a copy of the file taken while the store was open,
+    \* every put / put_batch having committed durably before it returned): cache rebuilt from the table
+    [] r.op \in {"Reopen", "Crash"} -> Out(ROk, [t |-> s.t, c |-> VersOf(s.t)])
     [] OTHER -> Out(ROk, s)
 
 \* design-level invariant of the disk store: the cache is the version column of the table
@@ -210,7 +212,6 @@ CloudStep(s, r, K) ==
             ELSE Out(ROk, [s EXCEPT !.ph = "open",
                                     !.log = [EmptyTab EXCEPT ![WriterKey] =
                                                Ent(s.loc[WriterKey].v + 1, SignerVal)]])
-  ELSE IF r.op \in {"Reopen"} THEN Out(ROk, s)
   ELSE IF s.ph # "open" THEN Dead(s)                                      \* "not in transaction"
   ELSE CASE r.op = "Put"    -> LET o == CloudPutV(s, s.log, r.k, CloudPutVersion(s, r.k, K), r.x, K) IN
                                Out(R(o.c, <<>>), [s EXCEPT !.log = o.log])
@@ -287,12 +288,14 @@ StoreViol(r, resp, pre, post) ==
   \cup  Clause(\E k \in AllKeys : post.c[k] # post.t[k].v, "get_version-differs-from-contents")
   \cup  Clause(IsRead(r) /\ (~ReadCorrect(r, resp, pre.t) \/ post # pre), "read-not-last-accepted-write")
   \* the on-disk backend returns the same contents after being reopened
-  \cup  Clause(r.op = "Reopen" /\ (~ok \/ post.t # pre.t \/ post.c # VersOf(pre.t)), "reopen-changed-contents")
+  \cup  Clause(r.op \in {"Reopen", "Crash"} /\ (~ok \/ post.t # pre.t \/ post.c # VersOf(pre.t)),
+               "reopen-changed-contents")
 
 \* memory and disk store give identical results for identical request sequences
-DiffViol(r, respM, respR, postM, postR) ==
+\* (contents: charged to the request after which the two stores first differ)
+DiffViol(r, respM, respR, preM, preR, postM, postR) ==
         Clause(respM # respR, "results:" \o OpLabel(r) \o ":mem=" \o respM.c \o ",redb=" \o respR.c)
-  \cup  Clause(postM # postR, "contents:" \o OpLabel(r))
+  \cup  Clause(postM # postR /\ preM = preR, "contents:" \o OpLabel(r))
 
 \* violation classes: "<backend>:<clause>"  (the differential clauses also name the entry point)
 Tag(tag, S) == {tag \o ":" \o c : c \in S}
@@ -355,7 +358,7 @@ CloudViol(g, r, resp, pre, post) ==
 CloudGhost(g, r, resp) ==
   IF r.op = "Prepare" /\ resp.c = "ok" THEN [valid |-> TRUE, m |-> resp.e]
   ELSE IF r.op \in {"Enter", "Commit"} \/ resp.c = "panic" THEN CloudGhostInit
-  ELSE IF IsWrite(r) THEN [g EXCEPT !.valid = FALSE]      \* (a refused batch may have staged a prefix)
+  ELSE IF IsWrite(r) THEN CloudGhostInit                  \* (a refused batch may have staged a prefix)
   ELSE g
 
 (***************************************************************************)
@@ -374,7 +377,8 @@ StoreRequests(Ks, MaxVer, Xs, BXs, Ps) ==
   \cup {[op |-> "GetVersion", k |-> k] : k \in Ks}
   \cup {[op |-> "GetPrefix", p |-> p] : p \in Ps}
 
-PairRequests(Ks, MaxVer, Xs, BXs, Ps) == StoreRequests(Ks, MaxVer, Xs, BXs, Ps) \cup {[op |-> "Reopen"]}
+PairRequests(Ks, MaxVer, Xs, BXs, Ps) ==
+  StoreRequests(Ks, MaxVer, Xs, BXs, Ps) \cup {[op |-> "Reopen"], [op |-> "Crash"]}
 
 CloudRequests(Ks, MaxVer, Xs, BKs, BVs, BXs, Ps) ==
        {[op |-> "Enter"], [op |-> "Prepare"], [op |-> "Commit"]}
